@@ -16,4 +16,19 @@ MUTANTS = [
     ("c08-gt-gte", "C08", K + "msg_server_deposit_for_burn.go", "amount.GT(perMessageBurnLimit.Amount)", "amount.GTE(perMessageBurnLimit.Amount)"),
     ("c08-body-ge", "C08", K + "msg_server_send_message.go", "uint64(len(messageBody)) > max.Amount", "uint64(len(messageBody)) >= max.Amount"),
     ("c08-limit-unlowered", "C08", K + "msg_server_deposit_for_burn.go", "k.GetPerMessageBurnLimit(ctx, strings.ToLower(burnToken))", "k.GetPerMessageBurnLimit(ctx, burnToken)"),
+    ("c04-mint-to-sender", "C04", K + "msg_server_receive_message.go", "sdk.Bech32ifyAddressBytes(bech32Prefix, burnMessage.MintRecipient[12:])", "sdk.Bech32ifyAddressBytes(bech32Prefix, message.Sender[12:])"),
+    ("c04-recipient-first-20", "C04", K + "msg_server_receive_message.go", "sdk.Bech32ifyAddressBytes(bech32Prefix, burnMessage.MintRecipient[12:])", "sdk.Bech32ifyAddressBytes(bech32Prefix, burnMessage.MintRecipient[:20])"),
+    ("c04-amount-low-64", "C04", K + "msg_server_receive_message.go", "Amount: math.NewIntFromBigInt(burnMessage.Amount.BigInt()),", "Amount: math.NewIntFromUint64(burnMessage.Amount.BigInt().Uint64()),"),
+    ("c04-denom-unlowered", "C04", K + "msg_server_receive_message.go", "Denom:  strings.ToLower(tokenPair.LocalToken),", "Denom:  tokenPair.LocalToken,"),
+    ("c04-event-wrong-nonce", "C04", K + "msg_server_receive_message.go", "Nonce:        message.Nonce,", "Nonce:        message.Nonce + 1,"),
+    ("c05-debit-module", "C05", K + "msg_server_deposit_for_burn.go", "k.bank.SendCoinsFromAccountToModule(ctx, fromAccAddress,", "k.bank.SendCoinsFromAccountToModule(ctx, sdk.AccAddress(types.ModuleAddress),"),
+    ("c05-burn-one-unit", "C05", K + "msg_server_deposit_for_burn.go", "\t\tAmount: coin,\n", "\t\tAmount: sdk.NewCoin(burnToken, math.NewInt(1)),\n"),
+    ("c05-message-amount-plus-1", "C05", K + "msg_server_deposit_for_burn.go", "\t\tAmount:        amount,\n", "\t\tAmount:        amount.AddRaw(1),\n"),
+    ("c06-drop-caller", "C06", K + "msg_server_send_message_with_caller.go", "\t\tmsg.DestinationCaller,\n\t\tmessageSender,", "\t\tmake([]byte, types.DestinationCallerLen),\n\t\tmessageSender,"),
+    ("c06-depositor-shifted", "C06", K + "msg_server_deposit_for_burn.go", "copy(messageSender[12:], fromAccAddress)", "copy(messageSender[11:], fromAccAddress)"),
+    ("c06-event-nonce-plus-1", "C06", K + "msg_server_deposit_for_burn.go", "Nonce:                     nonce.Nonce,", "Nonce:                     nonce.Nonce + 1,"),
+    ("c06-revert-fix-rehash", "C06", K + "msg_server_replace_deposit_for_burn.go", "hex.EncodeToString(burnMessage.BurnToken)", "hex.EncodeToString(append([]byte{1}, burnMessage.BurnToken[1:]...))"),
+    ("c09-amount-plus-1", "C09", K + "msg_server_replace_deposit_for_burn.go", "\t\tAmount:        burnMessage.Amount,\n", "\t\tAmount:        burnMessage.Amount.AddRaw(1),\n"),
+    ("c09-token-substituted", "C09", K + "msg_server_replace_deposit_for_burn.go", "\t\tBurnToken:     burnMessage.BurnToken,\n", "\t\tBurnToken:     burnMessage.MintRecipient,\n"),
+    ("c09-fresh-nonce", "C09", K + "msg_server_replace_message.go", "\t\toriginalMessage.Nonce,\n", "\t\tk.ReserveAndIncrementNonce(ctx).Nonce,\n"),
 ]
